@@ -322,7 +322,9 @@ def _task(t):
     if length == 2:
         seqs = ((first, l) for l in lasts)
     else:
-        seqs = ((first, m, l) for m in mids for l in lasts)
+        # the third request only has to show whose bytes it gets: the clean behaviours, unsegmented
+        lasts3 = [l for l in lasts if l[1] in ("cl", "chunked", "head-cl") and l[2] == "whole"]
+        seqs = ((first, m, l) for m in mids if m[2] == "whole" for l in lasts3)
     for steps in seqs:
         viols, st = execute(cfg, steps)
         acc.n += 1
@@ -349,9 +351,10 @@ def run(ctx):
     cfgs2.append(dict(maxsize=1, retries="1", ecl=False))
     tasks = [(c, f, 2) for c in cfgs2 for f in firsts]
     if ctx.thorough:
-        cfgs3 = [dict(maxsize=1, retries="1"), dict(maxsize=2, retries="R3")]
-        # 3-request histories: first step restricted to the behaviours that leave something behind
-        firsts3 = [f for f in firsts if f[2] == "whole"]
+        cfgs3 = [dict(maxsize=1, retries="1")]
+        # 3-request histories (one pool shape): the first step restricted to the behaviours that leave something behind
+        # on the connection, the middle step to unsegmented delivery, the last to the clean behaviours - about 1.5 million histories
+        firsts3 = [f for f in firsts if f[2] == "whole" and any(t in f[1] for t in ("late", "stray", "unsolicited", "silent-close", "body-sent", "eof-"))]
         tasks += [(c, f, 3) for c in cfgs3 for f in firsts3]
     acc = ctx.gather(_task, tasks, chunksize=1)
     n = acc.n
@@ -361,7 +364,7 @@ def run(ctx):
         "states": n, "transitions": acc.counters["wire_requests"], "traces_validated_against_impl": n,
         "histories": n,
         "step_alphabet": len(firsts), "last_step_alphabet": len(step_alphabet(True)),
-        "rule": "all histories of 2 requests (thorough: + 3 requests on two pool shapes) over the step alphabet "
+        "rule": "all histories of 2 requests (thorough: + 3 requests on one pool shape, first step among the behaviours that leave something behind, middle step unsegmented, last step among the clean behaviours) over the step alphabet "
                 "(method x server behaviour x segmentation x caller behaviour) x pool shapes {maxsize 1,2} x retries {False,1,Retry(3)} "
                 "(+ one shape with enforce_content_length=False on every request); "
                 "non-trivial = a history in which some socket carried more than one request (connection reuse)",
